@@ -538,10 +538,18 @@ func (t *Transport) newClientConn(c net.Conn, singleUse bool, internalStateHook 
 		initialSettings = append(initialSettings, Setting{ID: SettingHeaderTableSize, Val: maxHeaderTableSize})
 	}
 
+	// The connection starts with initialWindowSize tokens and
+	// MaxUploadBufferPerConnection more are added to it. A flow-control
+	// window cannot exceed 2^31-1 (RFC 9113 Section 6.9.1).
+	connFlow := conf.MaxUploadBufferPerConnection
+	if connFlow > math.MaxInt32-initialWindowSize {
+		connFlow = math.MaxInt32 - initialWindowSize
+	}
+
 	cc.bw.Write(clientPreface)
 	cc.fr.WriteSettings(initialSettings...)
-	cc.fr.WriteWindowUpdate(0, uint32(conf.MaxUploadBufferPerConnection))
-	cc.inflow.init(conf.MaxUploadBufferPerConnection + initialWindowSize)
+	cc.fr.WriteWindowUpdate(0, uint32(connFlow))
+	cc.inflow.init(connFlow + initialWindowSize)
 	cc.bw.Flush()
 	if cc.werr != nil {
 		cc.Close()
